@@ -561,5 +561,126 @@ Proof.
     rewrite IH. unfold erase. destruct (c =? 0); auto. destruct (hdr (m s1 c) =? 0); reflexivity.
 Qed.
 
+(* ====================================================================================== *)
+(* Additional operations (definitions only; their proofs are in Proof/HeapMore.v and
+   Proof/HeapTrace.v).  Nothing above this line was changed. *)
 
+(* ---------- non-destructive load (memory.rs `load`, LoadMode::Share) ----------
+   `ADDIM [p], -1`, then every field is loaded and its pointer slot shared once (share_block
+   skips null). *)
+Definition dec (p : Z) (s : st) : st :=
+  {| m := set_hdr (m s) p (hdr (m s p) - 1); heap := heap s; free := free s; frontier := frontier s |}.
+Definition share_list (l : list Z) (s : st) : st := fold_left (fun s c => share c 1 s) l s.
+Definition load_share (p : Z) (s : st) : st := share_list (ps (m s p)) (dec p s).
+(* `load` tests the header of the block: 0 = last reference (release), otherwise share *)
+Definition load (p : Z) (s : st) : st :=
+  if hdr (m s p) =? 0 then release p s else load_share p s.
 
+(* ---------- objects chained over several blocks (memory.rs store_fields / load_fields) ----------
+   `fields` are the pointer slots of the fields of the object, left to right (0 for an integer or
+   for a null pointer).  store_fields writes the LAST block first: it takes the right-most
+   FIELDS_PER_BLOCK = 3 fields, right-aligned, the unused slots on the left zeroed; every further
+   block (BlockPosition::Other) takes the next 2 fields from the right, right-aligned in slots 0-1,
+   and the link to the block acquired just before in slot 2.  The block acquired last is the head
+   of the object; it holds the left-most fields. *)
+Definition lastn {A} (k : nat) (l : list A) : list A := skipn (length l - k) l.
+Definition butlastn {A} (k : nat) (l : list A) : list A := firstn (length l - k) l.
+Definition pad (k : nat) (l : list Z) : list Z := repeat 0 (k - length l) ++ l.
+
+Fixpoint store_other (fuel : nat) (rest : list Z) (link : Z) (s : st) : Z * st :=
+  match fuel with
+  | O => (link, s)
+  | S f =>
+      match rest with
+      | [] => (link, s)
+      | _ => let '(b, s1) := alloc (pad 2 (lastn 2 rest) ++ [link]) s in
+             store_other f (butlastn 2 rest) b s1
+      end
+  end.
+(* the pointer is 0 when there is nothing to store ("mark no allocation") *)
+Definition alloc_object (fields : list Z) (s : st) : Z * st :=
+  match fields with
+  | [] => (0, s)
+  | _ => let '(b, s1) := alloc (pad 3 (lastn 3 fields)) s in
+         store_other (length fields) (butlastn 3 fields) b s1
+  end.
+
+(* the link of a non-last block is its slot 2; its fields are the other slots *)
+Definition link_of (mm : mem) (p : Z) : Z := nth 2 (ps (mm p)) 0.
+Definition fields_of (mm : mem) (p : Z) : list Z := firstn 2 (ps (mm p)) ++ skipn 3 (ps (mm p)).
+
+(* k = number of blocks that follow p in its object.  load_fields visits the head first. *)
+Fixpoint obj_blocks (k : nat) (mm : mem) (p : Z) : list Z :=
+  p :: match k with O => [] | S k' => obj_blocks k' mm (link_of mm p) end.
+Fixpoint obj_fields (k : nat) (mm : mem) (p : Z) : list Z :=
+  match k with
+  | O => ps (mm p)
+  | S k' => fields_of mm p ++ obj_fields k' mm (link_of mm p)
+  end.
+
+(* LoadMode::Release: every block is pushed on the reuse list (release_block does not look at the
+   header of a continuation block), nothing is shared *)
+Fixpoint load_object_release (k : nat) (p : Z) (s : st) : st :=
+  match k with
+  | O => release p s
+  | S k' => load_object_release k' (link_of (m s) p) (release p s)
+  end.
+(* LoadMode::Share: only the header of the head is decremented; the fields of every block are
+   shared, the links are not *)
+Fixpoint share_walk (k : nat) (p : Z) (s : st) : st :=
+  match k with
+  | O => share_list (ps (m s p)) s
+  | S k' => share_walk k' (link_of (m s) p) (share_list (fields_of (m s) p) s)
+  end.
+Definition load_object_share (k : nat) (p : Z) (s : st) : st := share_walk k p (dec p s).
+Definition load_object (k : nat) (p : Z) (s : st) : st :=
+  if hdr (m s p) =? 0 then load_object_release k p s else load_object_share k p s.
+
+(* number of continuation blocks of an object with n fields *)
+Definition nlinks (n : nat) : nat := if Nat.leb n 3 then 0 else Nat.div (n - 3 + 1) 2.
+
+(* ---------- operation traces ---------- *)
+Inductive op :=
+| OShare (p n : Z)
+| OErase (p : Z)
+| OAlloc (slots : list Z)              (* single block with these pointer slots *)
+| OLoadRelease (p : Z)
+| OLoadShare (p : Z)
+| OLoad (p : Z)                        (* the header test of `load`, then one of the two *)
+| OAllocObj (fields : list Z)
+| OLoadObjRelease (k : nat) (p : Z)
+| OLoadObjShare (k : nat) (p : Z)
+| OLoadObj (k : nat) (p : Z).
+
+Definition step (s : st) (o : op) : st :=
+  match o with
+  | OShare p n => share p n s
+  | OErase p => erase p s
+  | OAlloc sl => snd (alloc sl s)
+  | OLoadRelease p => release p s
+  | OLoadShare p => load_share p s
+  | OLoad p => load p s
+  | OAllocObj f => snd (alloc_object f s)
+  | OLoadObjRelease k p => load_object_release k p s
+  | OLoadObjShare k p => load_object_share k p s
+  | OLoadObj k p => load_object k p s
+  end.
+
+(* ghost roots: remove one occurrence / a sub-multiset *)
+Fixpoint rem1 (x : Z) (l : list Z) : list Z :=
+  match l with [] => [] | y :: r => if Z.eq_dec x y then r else y :: rem1 x r end.
+Definition msub (l xs : list Z) : list Z := fold_left (fun l x => rem1 x l) xs l.
+
+(* the roots after an operation; loads and allocations depend on the state before it *)
+Definition ghost (s : st) (R : list Z) (o : op) : list Z :=
+  match o with
+  | OShare p n => if p =? 0 then R else repeat p (Z.to_nat n) ++ R
+  | OErase p => if p =? 0 then R else rem1 p R
+  | OAlloc sl => heap s :: msub R (nz sl)
+  | OLoadRelease p | OLoadShare p | OLoad p => nz (ps (m s p)) ++ rem1 p R
+  | OAllocObj f => match f with [] => R | _ => fst (alloc_object f s) :: msub R (nz f) end
+  | OLoadObjRelease k p | OLoadObjShare k p | OLoadObj k p => nz (obj_fields k (m s) p) ++ rem1 p R
+  end.
+
+Definition gstep (sr : st * list Z) (o : op) : st * list Z := (step (fst sr) o, ghost (fst sr) (snd sr) o).
+Definition grun (ops : list op) (sr : st * list Z) : st * list Z := fold_left gstep ops sr.
